@@ -133,40 +133,55 @@ WellFormed(it, md) ==
       [] OTHER          -> FALSE
 
 -----------------------------------------------------------------------------
-VARIABLES mode,                                   \* framing of this stream
-          ln, ph, gs, pt, ptxt, cnt, ltyp, want,  \* producer: grammar state and expectation
-          pend, total, delivered, ends,           \* transport
-          q, nextBuf, nextIdx, readBuf, pc,       \* reader: trzszBuffer
+VARIABLES mode, etyp,                             \* framing of this stream, the TYPE recvLine is asked for
+          ln, ph, gs, pt, ptxt, cnt, ltyp, want,  \* producer: grammar state, expectations not yet returned
+          pend, pe, owed,                         \* transport: pending bytes, offsets of line ends in
+                                                  \* them, line ends delivered but not yet returned
+          q, rest, nidx, readBuf, pc,             \* reader: trzszBuffer (rest = nextBuf[nextIdx:],
+                                                  \* nidx = nextIdx, tracked only for the lfpeek quirk)
           tb, ti, hadNl,                          \* reader: the turn's buf (cut at '!'), byte cursor
           lastByte, skipVT100, hasNewline, mayDuplicate, hasCursorHome, preHasCursorHome,
           acc,                                    \* the byte just processed was an accepted letter
-          out
+          nout, lastOut, ok, okc                  \* reads returned, the last result, verdict bits
 
 gvars == <<ln, ph, gs, pt, ptxt, cnt, ltyp, want>>
-tvars == <<pend, total, delivered, ends>>
-bvars == <<q, nextBuf, nextIdx, readBuf, pc>>
+tvars == <<pend, pe>>
+bvars == <<q, rest, nidx, readBuf, pc>>
+ovars == <<nout, lastOut, ok, okc, owed>>
 wvars == <<tb, ti, hadNl, lastByte, skipVT100, hasNewline, mayDuplicate, hasCursorHome, preHasCursorHome, acc>>
-vars  == <<mode, gvars, tvars, bvars, wvars, out>>
+vars  == <<mode, etyp, gvars, tvars, bvars, wvars, ovars>>
 
 NoLine == [res |-> "ok", line |-> <<>>, typ |-> <<>>, fin |-> FALSE]
 
-InitWith(md) ==
-    /\ mode = md
+InitWith(md, et, lt) ==
+    /\ mode = md /\ etyp = et
     /\ ln = 1 /\ ph = "pre" /\ gs = "free" /\ pt = FALSE /\ ptxt = <<>> /\ cnt = 0
-    /\ ltyp \in LineTypes /\ want = <<[NoLine EXCEPT !.typ = ltyp]>>
-    /\ pend = <<>> /\ total = 0 /\ delivered = 0 /\ ends = <<>>
-    /\ q = <<>> /\ nextBuf = <<>> /\ nextIdx = 0 /\ readBuf = <<>> /\ pc = "idle"
+    /\ ltyp = lt /\ want = <<[NoLine EXCEPT !.typ = lt]>>
+    /\ pend = <<>> /\ pe = <<>> /\ owed = 0
+    /\ q = <<>> /\ rest = <<>> /\ nidx = 0 /\ readBuf = <<>> /\ pc = "idle"
     /\ tb = <<>> /\ ti = 0 /\ hadNl = FALSE
     /\ lastByte = ESC /\ skipVT100 = FALSE /\ hasNewline = FALSE /\ mayDuplicate = FALSE
     /\ hasCursorHome = FALSE /\ preHasCursorHome = FALSE /\ acc = FALSE
-    /\ out = <<>>
+    /\ nout = 0 /\ lastOut = [res |-> "none", line |-> <<>>] /\ ok = TRUE /\ okc = TRUE
 
-Init == \E md \in Modes : InitWith(md)
+Init == \E md \in Modes, lt \in LineTypes : InitWith(md, ExpType, lt)
+
+(* the same as an action: used by the trace spec to start the next recorded case *)
+ResetTo(md, et, lt) ==
+    /\ mode' = md /\ etyp' = et
+    /\ ln' = 1 /\ ph' = "pre" /\ gs' = "free" /\ pt' = FALSE /\ ptxt' = <<>> /\ cnt' = 0
+    /\ ltyp' = lt /\ want' = <<[NoLine EXCEPT !.typ = lt]>>
+    /\ pend' = <<>> /\ pe' = <<>> /\ owed' = 0
+    /\ q' = <<>> /\ rest' = <<>> /\ nidx' = 0 /\ readBuf' = <<>> /\ pc' = "idle"
+    /\ tb' = <<>> /\ ti' = 0 /\ hadNl' = FALSE
+    /\ lastByte' = ESC /\ skipVT100' = FALSE /\ hasNewline' = FALSE /\ mayDuplicate' = FALSE
+    /\ hasCursorHome' = FALSE /\ preHasCursorHome' = FALSE /\ acc' = FALSE
+    /\ nout' = 0 /\ lastOut' = [res |-> "none", line |-> <<>>] /\ ok' = TRUE /\ okc' = TRUE
 
 -----------------------------------------------------------------------------
 (* PRODUCER.                                                                                  *)
 
-CurLine == want[ln].line
+CurLine == want[Len(want)].line
 FullMarker == Marker(ltyp)
 InMarker == Len(CurLine) < Len(FullMarker)
 PayLen == Len(CurLine) - Len(FullMarker)
@@ -197,7 +212,6 @@ WinGap(it) ==
 
 Emit(it) ==
     /\ pend' = pend \o Render(it, mode)
-    /\ total' = total + Len(Render(it, mode))
     /\ cnt' = cnt + Cost(it)
 
 (* a byte of the line itself: the next marker byte, then payload bytes                        *)
@@ -207,39 +221,37 @@ ProduceLet(it) ==
                    ELSE it.b[1] \in PayBytes /\ PayLen < MaxPay
     /\ (mode = "win" => gs \in {"free", "posd", "closed", "straynl"})
     /\ Emit(it)
-    /\ want' = [want EXCEPT ![ln].line = @ \o it.b]
+    /\ want' = [want EXCEPT ![Len(want)].line = @ \o it.b]
     /\ ph' = "line" /\ gs' = "free"
-    /\ UNCHANGED <<ln, pt, ptxt, ltyp, ends, delivered>>
+    /\ UNCHANGED <<ln, pt, ptxt, ltyp, pe>>
 
-ProduceTerm(it) ==
+ProduceTerm(it, nt) ==       \* nt: TYPE of the next line
     /\ it.k = "term" /\ ph \in {"line", "tail"} /\ ~InMarker
     /\ (mode = "win" => gs \in {"free", "posd", "closed"})
     /\ Emit(it)
-    /\ ends' = Append(ends, total + 1)
+    /\ pe' = Append(pe, Len(pend) + 1)
     /\ IF ln < MaxLines
-       THEN \E t \in LineTypes :
-              /\ ltyp' = t /\ ln' = ln + 1 /\ ph' = "pre"
-              /\ want' = Append([want EXCEPT ![ln].fin = TRUE], [NoLine EXCEPT !.typ = t])
-       ELSE /\ ph' = "done" /\ want' = [want EXCEPT ![ln].fin = TRUE] /\ UNCHANGED <<ln, ltyp>>
+       THEN /\ ltyp' = nt /\ ln' = ln + 1 /\ ph' = "pre"
+            /\ want' = Append([want EXCEPT ![Len(want)].fin = TRUE], [NoLine EXCEPT !.typ = nt])
+       ELSE /\ ph' = "done" /\ want' = [want EXCEPT ![Len(want)].fin = TRUE] /\ UNCHANGED <<ln, ltyp>>
     /\ gs' = "free" /\ pt' = FALSE /\ ptxt' = <<>>
-    /\ UNCHANGED delivered
 
 ProduceEtx(it) ==
     /\ it.k = "etx" /\ WithEtx /\ ph \in {"pre", "line", "tail"}
     /\ Emit(it)
-    /\ ends' = Append(ends, total + 1)
-    /\ want' = [want EXCEPT ![ln].res = "int", ![ln].fin = TRUE]
+    /\ pe' = Append(pe, Len(pend) + 1)
+    /\ want' = [want EXCEPT ![Len(want)].res = "int", ![Len(want)].fin = TRUE]
     /\ ph' = "dead"
-    /\ UNCHANGED <<ln, gs, pt, ptxt, ltyp, delivered>>
+    /\ UNCHANGED <<ln, gs, pt, ptxt, ltyp>>
 
 (* text in front of the marker; a stale marker of the expected type is only documented in    *)
 (* front of a line of that type (that is what LastIndex is for)                               *)
 ProduceTxt(it) ==
     /\ it.k = "txt" /\ ph = "pre" /\ cnt < MaxNoise
-    /\ (ltyp # ExpType => ~Contains(ptxt \o it.b, Marker(ExpType)))
+    /\ (ltyp # etyp => ~Contains(ptxt \o it.b, Marker(etyp)))
     /\ Emit(it)
     /\ pt' = TRUE /\ ptxt' = ptxt \o it.b
-    /\ UNCHANGED <<ln, ph, gs, ltyp, want, ends, delivered>>
+    /\ UNCHANGED <<ln, ph, gs, ltyp, want, pe>>
 
 ProduceTmuxNoise(it) ==
     /\ mode = "tmux" /\ cnt < MaxNoise
@@ -247,7 +259,7 @@ ProduceTmuxNoise(it) ==
        \/ it.k = "st" /\ it.n = 0 /\ ph = "line" /\ ~InMarker /\ UNCHANGED ph
        \/ it.k = "st" /\ it.n > 0 /\ ph = "line" /\ ~InMarker /\ ph' = "tail"
     /\ Emit(it)
-    /\ UNCHANGED <<ln, gs, pt, ptxt, ltyp, want, ends, delivered>>
+    /\ UNCHANGED <<ln, gs, pt, ptxt, ltyp, want, pe>>
 
 ProduceWinNoise(it) ==
     /\ mode = "win" /\ it.k \in {"csi", "pad", "nl", "dup", "stray", "bang"}
@@ -258,13 +270,13 @@ ProduceWinNoise(it) ==
             /\ UNCHANGED gs
        ELSE /\ ph = "line" /\ WinGap(it) # "-" /\ gs' = WinGap(it)
     /\ Emit(it)
-    /\ UNCHANGED <<ln, ph, pt, ptxt, ltyp, want, ends, delivered>>
+    /\ UNCHANGED <<ln, ph, pt, ptxt, ltyp, want, pe>>
 
-Produce(it) ==
+Produce(it, nt) ==
     /\ WellFormed(it, mode)
-    /\ \/ ProduceLet(it) \/ ProduceTerm(it) \/ ProduceEtx(it) \/ ProduceTxt(it)
+    /\ \/ ProduceLet(it) \/ ProduceTerm(it, nt) \/ ProduceEtx(it) \/ ProduceTxt(it)
        \/ ProduceTmuxNoise(it) \/ ProduceWinNoise(it)
-    /\ UNCHANGED <<mode, bvars, wvars, out>>
+    /\ UNCHANGED <<mode, etyp, bvars, wvars, nout, lastOut, ok, okc, owed>>
 
 -----------------------------------------------------------------------------
 (* TRANSPORT: addBuffer of the first n pending bytes.                                         *)
@@ -272,8 +284,10 @@ Deliver(n) ==
     /\ n \in 1..Len(pend)
     /\ q' = Append(q, SubSeq(pend, 1, n))
     /\ pend' = RestOf(pend, n)
-    /\ delivered' = delivered + n
-    /\ UNCHANGED <<mode, gvars, total, ends, nextBuf, nextIdx, readBuf, pc, wvars, out>>
+    /\ LET k == Cardinality({j \in 1..Len(pe) : pe[j] <= n}) IN
+         /\ owed' = owed + k
+         /\ pe' = [j \in 1..(Len(pe) - k) |-> pe[j + k] - n]
+    /\ UNCHANGED <<mode, etyp, gvars, rest, nidx, readBuf, pc, wvars, nout, lastOut, ok, okc>>
 
 -----------------------------------------------------------------------------
 (* READERS.                                                                                   *)
@@ -291,7 +305,7 @@ Strip(buf) ==
 
 (* transfer.go recvLine: LastIndex("#"+type+":"), else the last '#' if not at index 0 *)
 MarkerCut(line) ==
-    LET i == LastIdxOf(line, Marker(ExpType)) IN
+    LET i == LastIdxOf(line, Marker(etyp)) IN
     IF i >= 0 THEN RestOf(line, i)
     ELSE LET j == LastIdxOf(line, <<HASH>>) IN IF j > 0 THEN RestOf(line, j) ELSE line
 
@@ -304,28 +318,37 @@ CheckOf(line) ==
     ELSE LET i == SetMin(S) IN [st |-> "ok", typ |-> SubSeq(line, 2, i - 1), buf |-> RestOf(line, i)]
 
 Reading == pc \in {"wait", "bytes"}
-Blocked == pc = "wait" /\ nextIdx >= Len(nextBuf) /\ q = <<>>
+Blocked == pc = "wait" /\ rest = <<>> /\ q = <<>>
 
 (* readLine / readLineOnWindows entry: readBuf.Reset(), the flags are fresh locals *)
 Start ==
-    /\ pc = "idle" /\ Len(out) < MaxLines
+    /\ pc = "idle" /\ nout < MaxLines
     /\ pc' = "wait" /\ readBuf' = <<>>
     /\ tb' = <<>> /\ ti' = 0 /\ hadNl' = FALSE
     /\ lastByte' = ESC /\ skipVT100' = FALSE /\ hasNewline' = FALSE /\ mayDuplicate' = FALSE
     /\ hasCursorHome' = FALSE /\ preHasCursorHome' = FALSE /\ acc' = FALSE
-    /\ UNCHANGED <<mode, gvars, tvars, q, nextBuf, nextIdx, out>>
+    /\ UNCHANGED <<mode, etyp, gvars, tvars, q, rest, nidx, ovars>>
 
+(* return of recvLine; the verdict bits compare it with the oldest expectation *)
 Finish(res, line) ==
-    /\ out' = Append(out, [res |-> res, line |-> IF res = "ok" THEN RecvLine(line) ELSE <<>>])
+    LET o == [res |-> res, line |-> IF res = "ok" THEN RecvLine(line) ELSE <<>>] IN
+    /\ lastOut' = o /\ nout' = nout + 1 /\ owed' = owed - 1
     /\ pc' = IF res = "ok" THEN "idle" ELSE "dead"
+    /\ IF want = <<>> THEN ok' = FALSE /\ okc' = okc /\ want' = want
+       ELSE LET w == Head(want) IN
+            /\ ok' = (ok /\ w.fin /\ o.res = w.res /\ (o.res = "ok" => o.line = w.line))
+            /\ okc' = (okc /\ (w.res = "int" => o.res = "int"))
+            /\ want' = IF w.fin THEN Tail(want) ELSE want
+NoFinish == UNCHANGED <<nout, lastOut, ok, okc, owed, want, pc>>
 
 (* nextBuffer(): the unread rest of the current chunk, else the next chunk of bufCh *)
-HaveBuf == nextIdx < Len(nextBuf) \/ q # <<>>
-FromCur == nextIdx < Len(nextBuf)
-TurnBuf == IF FromCur THEN RestOf(nextBuf, nextIdx) ELSE Head(q)
-TurnNB  == IF FromCur THEN nextBuf ELSE Head(q)
-TurnBase == IF FromCur THEN nextIdx ELSE 0
+HaveBuf == rest # <<>> \/ q # <<>>
+FromCur == rest # <<>>
+TurnBuf == IF FromCur THEN rest ELSE Head(q)
+TurnBase == IF FromCur THEN nidx ELSE 0
 FirstOf(buf, c) == LET S == {i \in 1..Len(buf) : buf[i] = c} IN IF S = {} THEN 0 ELSE SetMin(S)
+Track(i) == IF "lfpeek" \in Quirks THEN i ELSE 0      \* nextIdx matters to the quirk only
+pvars == <<ln, ph, gs, pt, ptxt, cnt, ltyp>>          \* producer state without `want`
 
 (* one turn of readLine(mayHasJunk = true)'s loop *)
 TmuxTurn ==
@@ -333,35 +356,34 @@ TmuxTurn ==
     /\ LET buf == TurnBuf
            i   == FirstOf(buf, LF)
            seg == IF i > 0 THEN SubSeq(buf, 1, i - 1) ELSE buf
+           adv == IF i > 0 THEN i ELSE Len(buf)
            rb  == readBuf \o seg IN
-       /\ nextBuf' = TurnNB /\ q' = IF FromCur THEN q ELSE Tail(q)
-       /\ nextIdx' = TurnBase + (IF i > 0 THEN i ELSE Len(buf))
+       /\ q' = IF FromCur THEN q ELSE Tail(q)
+       /\ rest' = RestOf(buf, adv) /\ nidx' = Track(TurnBase + adv)
        /\ IF HasByte(seg, ETX) THEN readBuf' = readBuf /\ Finish("int", <<>>)
-          ELSE IF i = 0 THEN readBuf' = rb /\ UNCHANGED <<out, pc>>
+          ELSE IF i = 0 THEN readBuf' = rb /\ NoFinish
           ELSE IF rb # <<>> /\ Last(rb) = CR
-               THEN readBuf' = SubSeq(rb, 1, Len(rb) - 1) /\ UNCHANGED <<out, pc>>
+               THEN readBuf' = SubSeq(rb, 1, Len(rb) - 1) /\ NoFinish
                ELSE readBuf' = rb /\ Finish("ok", rb)
-    /\ UNCHANGED <<mode, gvars, tvars, wvars>>
+    /\ UNCHANGED <<mode, etyp, pvars, tvars, wvars>>
 
 (* readLineOnWindows: nextBuffer(), the cut at '!' and the look-ahead for the LF behind it *)
 WinTurnBegin ==
     /\ mode = "win" /\ pc = "wait" /\ HaveBuf
     /\ LET buf == TurnBuf
-           nb  == TurnNB
            i   == FirstOf(buf, BANG)
-           ni  == TurnBase + i
+           ni  == TurnBase + i                                       \* b.nextIdx after the '!'
            lfBehind == IF "lfpeek" \in Quirks
                        THEN ni < Len(buf) /\ buf[ni + 1] = LF       \* as coded: buf[b.nextIdx]
-                       ELSE ni < Len(nb) /\ nb[ni + 1] = LF         \* what is meant: the byte after '!'
+                       ELSE i < Len(buf) /\ buf[i + 1] = LF         \* what is meant: the byte after '!'
+           adv == IF i > 0 THEN i + (IF lfBehind THEN 1 ELSE 0) ELSE Len(buf)
        IN
-       /\ nextBuf' = nb /\ q' = IF FromCur THEN q ELSE Tail(q)
-       /\ IF i > 0
-          THEN /\ nextIdx' = ni + (IF lfBehind THEN 1 ELSE 0)
-               /\ tb' = SubSeq(buf, 1, i - 1) /\ hadNl' = TRUE
-          ELSE /\ nextIdx' = TurnBase + Len(buf)
-               /\ tb' = buf /\ hadNl' = FALSE
+       /\ q' = IF FromCur THEN q ELSE Tail(q)
+       /\ rest' = RestOf(buf, adv) /\ nidx' = Track(TurnBase + adv)
+       /\ tb' = IF i > 0 THEN SubSeq(buf, 1, i - 1) ELSE buf
+       /\ hadNl' = (i > 0)
     /\ ti' = 0 /\ pc' = "bytes" /\ acc' = FALSE
-    /\ UNCHANGED <<mode, gvars, tvars, readBuf, out,
+    /\ UNCHANGED <<mode, etyp, gvars, tvars, readBuf, nout, lastOut, ok, okc, owed,
                    lastByte, skipVT100, hasNewline, mayDuplicate, hasCursorHome, preHasCursorHome>>
 
 (* the body of `for i := 0; i < len(buf); i++` for one byte *)
@@ -374,10 +396,10 @@ WinByte ==
           THEN /\ Finish("int", <<>>)
                /\ UNCHANGED <<readBuf, lastByte, skipVT100, hasNewline, mayDuplicate, hasCursorHome,
                               preHasCursorHome, acc>>
-          ELSE /\ UNCHANGED <<out, pc>>
+          ELSE /\ NoFinish
                /\ IF skipVT100
                   THEN /\ skipVT100' = ~IsAlpha(c)
-                       /\ mayDuplicate' = (mayDuplicate \/ (IsAlpha(c) /\ c = CH /\ IsDigit(lastByte)))
+                       /\ mayDuplicate' = (mayDuplicate \/ (c = CH /\ IsDigit(lastByte)))
                        /\ hasCursorHome' = (hasCursorHome \/ (lastByte = LB /\ c = CH))
                        /\ lastByte' = c /\ hasNewline' = hn /\ acc' = FALSE
                        /\ UNCHANGED <<readBuf, preHasCursorHome>>
@@ -401,16 +423,16 @@ WinByte ==
                             /\ UNCHANGED <<lastByte, skipVT100>>
                   ELSE /\ hasNewline' = hn /\ acc' = FALSE
                        /\ UNCHANGED <<readBuf, lastByte, skipVT100, mayDuplicate, hasCursorHome, preHasCursorHome>>
-    /\ UNCHANGED <<mode, gvars, tvars, q, nextBuf, nextIdx, tb, hadNl>>
+    /\ UNCHANGED <<mode, etyp, pvars, tvars, q, rest, nidx, tb, hadNl>>
 
 (* `if newLineIdx >= 0 && b.readBuf.Len() > 0 && !skipVT100 { return }` *)
 WinTurnEnd ==
     /\ mode = "win" /\ pc = "bytes" /\ ti = Len(tb)
     /\ IF hadNl /\ readBuf # <<>> /\ ~skipVT100
        THEN Finish("ok", readBuf)
-       ELSE pc' = "wait" /\ UNCHANGED out
+       ELSE pc' = "wait" /\ UNCHANGED <<nout, lastOut, ok, okc, owed, want>>
     /\ acc' = FALSE
-    /\ UNCHANGED <<mode, gvars, tvars, q, nextBuf, nextIdx, readBuf, tb, ti, hadNl,
+    /\ UNCHANGED <<mode, etyp, pvars, tvars, q, rest, nidx, readBuf, tb, ti, hadNl,
                    lastByte, skipVT100, hasNewline, mayDuplicate, hasCursorHome, preHasCursorHome>>
 
 ReaderStep == Start \/ TmuxTurn \/ WinTurnBegin \/ WinByte \/ WinTurnEnd
@@ -432,7 +454,8 @@ Universe ==
 (* producer and the transport move only while the reader is parked in nextBuffer.            *)
 Next ==
     \/ ReaderStep
-    \/ Blocked /\ Len(pend) < MaxPend /\ \E it \in Universe : Produce(it)
+    \/ Blocked /\ Len(pend) < MaxPend /\ \E it \in Universe :
+            IF it.k = "term" /\ ln < MaxLines THEN \E nt \in LineTypes : Produce(it, nt) ELSE Produce(it, ExpType)
     \/ Blocked /\ \E n \in 1..Len(pend) : Deliver(n)
 
 Spec == Init /\ [][Next]_vars
@@ -441,25 +464,20 @@ Spec == Init /\ [][Next]_vars
 (* Properties.                                                                                *)
 
 TypeOK ==
-    /\ nextIdx \in 0..Len(nextBuf) /\ ti \in 0..Len(tb)
+    /\ ti \in 0..Len(tb) /\ owed >= 0 /\ nout \in 0..MaxLines
     /\ pc \in {"idle", "wait", "bytes", "dead"}
-    /\ Len(out) <= Len(want) /\ delivered + Len(pend) = total
+    /\ \A j \in 1..Len(pe) : pe[j] \in 1..Len(pend)
 
-(* the line returned after marker cut and status strip is the line that was sent; a line     *)
-(* carrying a Ctrl-C is never returned: the read fails with Interrupted                       *)
-Recovered ==
-    \A k \in 1..Len(out) :
-        /\ want[k].fin
-        /\ out[k].res = want[k].res
-        /\ out[k].res = "ok" => out[k].line = want[k].line
+(* the line returned after marker cut and status strip is the line that was sent (checked    *)
+(* by Finish against the oldest expectation not yet returned)                                 *)
+Recovered == ok
 
-CtrlCInterrupts ==
-    \A k \in 1..Len(out) : (k <= Len(want) /\ want[k].res = "int") => out[k].res = "int"
+(* a line carrying a Ctrl-C is never returned: the read fails with Interrupted               *)
+CtrlCInterrupts == okc
 
 (* a line (or a Ctrl-C) that has been delivered completely has been returned: the reader     *)
 (* never sits on a complete line, never swallows a terminator or a Ctrl-C                    *)
-EndsDelivered == Cardinality({k \in 1..Len(ends) : ends[k] <= delivered})
-Returned == (Blocked \/ pc = "dead") => Len(out) >= EndsDelivered
+Returned == (Blocked \/ pc = "dead") => owed = 0
 
 (* no flag leaks: a read starts with fresh flags, and once a letter has been accepted the    *)
 (* look-behind state of the gap in front of it is gone                                       *)
@@ -473,6 +491,7 @@ MC_ExpType == <<84>>                               \* "T"
 MC_LineTypes == {<<84>>, <<70>>}                   \* "T", "F"
 MC_TxtSet == {<<120>>, <<35>>, <<35, 84, 58>>}     \* x  #  #T:
 MC_CsiSet == {<<<<>>, 109>>, <<<<53>>, 72>>, <<<<>>, 72>>, <<<<33>>, 112>>}   \* ESC[m  ESC[5H  ESC[H  ESC[!p
+MC_Base64 == (48..57) \cup (65..90) \cup (97..122) \cup {43, 47, 61}      \* what encodeBytes / FormatInt emit
 MC_NlSet == {<<13, 10>>, <<10>>}
 MC_StSet == {<<<<>>, <<>>, <<>>, <<>>, 0>>, <<<<>>, <<>>, <<>>, <<>>, 3>>, <<<<>>, <<>>, <<>>, <<>>, 7>>,
              <<<<>>, <<>>, <<>>, <<2>>, 0>>}
